@@ -76,7 +76,10 @@ class Report:
         if os.path.isdir(d):                 # replay files of earlier runs
             for f in os.listdir(d):
                 if f.endswith(".json"):
-                    os.unlink(os.path.join(d, f))
+                    try:
+                        os.unlink(os.path.join(d, f))
+                    except FileNotFoundError:   # a concurrent run of the same check
+                        pass
         self._names = set()
 
     # ------------------------------------------------------------------
